@@ -33,8 +33,9 @@ def docNatives : Scalar → List NativeTy
 
 mutual
 /-- The documented pairs, one documentation rule per constructor, at any nesting depth (`Option` /
-`MaybeUnset` / `MaybeEmpty` wrap any of them: `statements/values.md`; `CqlValue` "can represent any CQL value";
-a Rust tuple of n fields pairs with a CQL tuple of the same n field types). -/
+`MaybeUnset` wrap any of them: `statements/values.md`; `CqlValue` "can represent any CQL value";
+a Rust tuple of n fields pairs with a CQL tuple of the same n field types).  `MaybeEmpty` is NOT mentioned by docs/source (grep finds nothing): its rule
+here (transparent) is taken from the rustdoc of `scylla_cql_core::value::MaybeEmpty` / `Emptiable`. -/
 def docAccepts : Carrier → CqlTy → Bool
   | .scalar s, t => match t with
     | .native n => (docNatives s).contains n
@@ -151,6 +152,26 @@ def documentedSer : Carrier → Bool
 def documentedSerList : List Carrier → Bool
   | [] => true
   | c :: cs => documentedSer c && documentedSerList cs
+end
+
+mutual
+/-- The carrier type has no `MaybeEmpty` layer (which additionally needs an emptiable column on write; the
+documentation does not describe `MaybeEmpty` at all — it is documented only in the API docs of
+`scylla_cql_core::value::MaybeEmpty`). -/
+def noME : Carrier → Bool
+  | .maybeEmpty _ => false
+  | .opt c => noME c
+  | .maybeUnset c => noME c
+  | .vec c => noME c
+  | .hashSet c => noME c
+  | .btreeSet c => noME c
+  | .hashMap k v => noME k && noME v
+  | .btreeMap k v => noME k && noME v
+  | .tuple cs => noMEs cs
+  | _ => true
+def noMEs : List Carrier → Bool
+  | [] => true
+  | c :: cs => noME c && noMEs cs
 end
 
 /-! ### the finite universes of the comparison -/
